@@ -401,6 +401,21 @@ def parse_obs(s):
     return out
 
 
+def parse_graph(s):
+    """`… #graph=A>B,C;B>-` -> {A: {B, C}, B: set()}; None if absent; the string itself if malformed (BADREV)."""
+    for part in s.split(" "):
+        if part.startswith("#graph="):
+            g = part[7:]
+            if g.startswith("BAD"):
+                return g
+            out = {}
+            for e in (g.split(";") if g != "-" else []):
+                m, es = e.split(">", 1)
+                out[m] = set() if es == "-" else set(es.split(","))
+            return out
+    return None
+
+
 def run_impl(lines, verbose=False):
     rc, out, err = common.run_exec(common.harness_bin(PROP), ["-v"] if verbose else [], lines)
     if rc != 0 and len(out) < len(lines):
@@ -516,6 +531,24 @@ def judge(tb, h, impl, idx, model):
             ex = bytes.fromhex(f[-1]).decode("utf-8", "replace") if len(f) > 4 and f[-1] != "-" else "?"
             tie.append((i, f"hypothesis NamesStable broken: of {f[1]} heap strings the retained state holds, {f[2] if len(f) > 2 else ''} "
                            f"{f[3] if len(f) > 3 else ''} (e.g. `{ex}`): re-interning the text no longer gives the handle the state holds"))
+        # stored dependency graph (state invariant GraphFresh, theorem graph_fresh): it must be the graph of the
+        # CURRENT files (this file's own view: imports of each file's text) and equal to the model's stored graph
+        ig = parse_graph(ia)
+        if ig is not None:
+            want = {m: set(tb.facts.get(tb.cid.get(t, -1), ([], 0))[0]) for m, t in files.items()}
+            if isinstance(ig, str):
+                tie.append((i, f"stored dependency graph: reverse map is not the inverse of the forward map ({ig})"))
+            elif ig != want:
+                diff = sorted(m for m in set(ig) | set(want) if ig.get(m) != want.get(m))
+                orc_graph = (f"stored dependency graph is not the graph of the current files (GraphFresh): differs at {diff[:3]}: "
+                             f"stored {[(m, sorted(ig[m])) if m in ig else (m, None) for m in diff[:2]]}, "
+                             f"files {[(m, sorted(want[m])) if m in want else (m, None) for m in diff[:2]]}")
+                tie.append((i, orc_graph))
+            if model is not None:
+                mg = parse_graph(model[i + 1])
+                if mg is not None and not isinstance(ig, str) and mg != ig:
+                    tie.append((i, f"stored dependency graph: implementation {sorted((m, sorted(v)) for m, v in ig.items())[:4]} "
+                                   f"model {sorted((m, sorted(v)) for m, v in mg.items())[:4]}"))
         if model is not None:
             mo = parse_obs(model[i + 1])
             if mo is None:
@@ -754,6 +787,13 @@ class Lsp:
             pass
 
 
+def _write_file(path, text):
+    with open(path, "w") as fh:
+        fh.write(text)
+        fh.flush()
+        os.fsync(fh.fileno())
+
+
 def canon_msg(s):
     out, run = [], []
     for l in s.split("\n"):
@@ -888,10 +928,15 @@ def lsp_stream(ctx, tb, binary, nhist):
             os.makedirs(os.path.join(root, "src"))
             open(os.path.join(root, "sconfig.json"), "w").write(
                 '{"sourceDirectory": "src", "__dangerously_allow_libdef_shadowing__": true}')
-            lsp = Lsp(binary, os.path.realpath(root))
+            # the initial files are on disk (written, flushed and closed) BEFORE the server process exists: it scans
+            # the source directory once at start-up
+            rroot = os.path.realpath(root)
             for m, t in init.items():
-                os.makedirs(os.path.dirname(lsp.path(m)), exist_ok=True)
-                open(lsp.path(m), "w").write(t)
+                fp = os.path.join(rroot, "src", *m.split(".")) + ".sam"
+                os.makedirs(os.path.dirname(fp), exist_ok=True)
+                with open(fp, "w") as fh:
+                    fh.write(t)
+            lsp = Lsp(binary, rroot)
             def diag_set(ds):
                 return sorted(set((d["range"]["start"]["line"], d["range"]["start"]["character"],
                                    d["range"]["end"]["line"], d["range"]["end"]["character"],
@@ -940,7 +985,7 @@ def lsp_stream(ctx, tb, binary, nhist):
                     m, t = v[0]
                     if m != OUTSIDE:
                         os.makedirs(os.path.dirname(lsp.path(m)), exist_ok=True)
-                        open(lsp.path(m), "w").write(t)
+                        _write_file(lsp.path(m), t)
                     lsp.send("textDocument/didChange", {"textDocument": {"uri": lsp.uri(m), "version": ei + 2},
                                                         "contentChanges": [{"text": t}]})
                 elif k == "cre":
@@ -949,7 +994,7 @@ def lsp_stream(ctx, tb, binary, nhist):
                             continue
                         if t is not None:
                             os.makedirs(os.path.dirname(lsp.path(m)), exist_ok=True)
-                            open(lsp.path(m), "w").write(t)
+                            _write_file(lsp.path(m), t)
                         elif os.path.exists(lsp.path(m)):
                             os.remove(lsp.path(m))
                     lsp.send("workspace/didCreateFiles", {"files": [{"uri": lsp.uri(m)} for m, _ in v]})
@@ -1238,8 +1283,8 @@ def run(ctx):
         "foreign_located_errors_seen": nforeign,
         "lsp_stdio": lsp_stats, "kinds_extractor": kinds,
         "affected_set_graphs_compared_exactly": ngraphs, "affected_set_size_histogram": gsizes,
-        "pending": ["hook for DependencyGraph::affected_set (exact comparison of the recheck set; today it is tied through its effects on diagnostics)",
-                    "checked_modules / GC interplay (property C11)"],
+        "pending": ["the recheck set an operation passes to recheck() is a local variable: tied through the stored graph (hook, every op), affected_set on plain graphs (H5) and its effects, not observed directly",
+                    "checked_modules contents / GC interplay (property C11)"],
         "partial_theorems": {},
     })
     ctx.assumptions += [
